@@ -1,9 +1,12 @@
 package rules
 
 import (
+	"fmt"
 	"go/constant"
 	"go/token"
 	"go/types"
+	"sort"
+	"strings"
 
 	"golang.org/x/tools/go/ssa"
 
@@ -11,140 +14,309 @@ import (
 )
 
 // ----------------------------------------------------------------------------
-// The command formatter: the static callee in NewTask whose result is stored to
-// Task.Command; its per-placeholder-type arms and the substituting Replace call.
+// The command formatter, analysed behaviourally: NewTask's expanded CFG is explored once per placeholder
+// type T under the assumption "the port's type field is T" (scenario engine).  What is reachable / certain
+// in that feasible subgraph is independent of how the code is organised (switch, if-chain, helper functions
+// per arm, one pass or two).
 // ----------------------------------------------------------------------------
 
-type armAlt struct {
-	sym  *core.Sym
-	val  ssa.Value
-	pred *ssa.BasicBlock
+type fmtInfo struct {
+	e        *Env
+	g        *core.XG
+	types    []string   // alternatives of the placeholder regex's first group
+	regexLit string
+	regexPos string
+	tagField *types.Var // PortInfo field holding the placeholder type
+	joinFld  *types.Var // PortInfo bool field that enables joining
+	modsFn   *ssa.Function
+	subst    []*core.Node // the strings.Replace nodes that substitute a placeholder in the command
+	problems []string
+
+	ipTempPath, ipPath, ipFifoPath *ssa.Function
+	arms                          map[string]*core.ScnResult
+	tagLoads                      []*core.Node
 }
 
-type fmtInfo struct {
-	fn       *ssa.Function
-	tagField *types.Var
-	arms     map[string][]armAlt
-	replace  *ssa.Call
-	problems []string
+// fatalFor: whenever a placeholder of type T is being formatted (i.e. from every load of the type field),
+// a never-returning call is inevitable.
+func (fi *fmtInfo) fatalFor(T string) bool {
+	if len(fi.tagLoads) == 0 {
+		return false
+	}
+	for _, n := range fi.tagLoads {
+		sc := fi.scenario(T, nil, true)
+		sc.Start, sc.AtEntry, sc.Result = n, false, core.StrAV(T)
+		if fi.g.Run(sc).NormalReturn() != nil {
+			return false
+		}
+	}
+	return true
+}
+
+func inCtxOfFn(n *core.Node, fn *ssa.Function) bool {
+	for c := n.Ctx; c != nil; c = c.Parent {
+		if c.Fn == fn {
+			return true
+		}
+	}
+	return false
 }
 
 func (e *Env) formatter() *fmtInfo {
 	if e.fmtc != nil {
 		return e.fmtc
 	}
-	fi := &fmtInfo{arms: map[string][]armAlt{}}
+	fi := &fmtInfo{e: e, arms: map[string]*core.ScnResult{}}
 	e.fmtc = fi
 	a := e.anchors()
+	p := e.P
 	if a.newTask == nil {
 		fi.problems = append(fi.problems, "NewTask not found")
 		return fi
 	}
-	// the call whose result is stored to Task.Command
-	for _, st := range a.storesTo(a.commandFld) {
-		if st.Parent() != a.newTask {
+	nfip := p.Func("NewFileIP")
+	g, err := p.BuildXG(a.newTask, core.XGOpts{NoInline: func(f *ssa.Function) bool { return f == nfip }})
+	if err != nil {
+		fi.problems = append(fi.problems, err.Error())
+		return fi
+	}
+	fi.g = g
+	fi.ipTempPath, fi.ipPath, fi.ipFifoPath = p.Func("FileIP.TempPath"), p.Func("FileIP.Path"), p.Func("FileIP.FifoPath")
+	// placeholder regex: a regexp.Compile/MustCompile literal in NewTask's tree whose first group enumerates the types
+	for _, n := range g.Nodes {
+		if !n.IsCallTo("regexp.Compile", "regexp.MustCompile") {
 			continue
 		}
-		if c, ok := st.Val.(*ssa.Call); ok {
-			if f := c.Call.StaticCallee(); f != nil && e.P.IsLib(f) && f.Blocks != nil {
-				if fi.fn != nil && fi.fn != f {
-					fi.problems = append(fi.problems, "several formatter candidates")
+		s := e.symbolizer().InCtx(n.Ctx, n.Call.Args[0])
+		if s.Op != "lit" {
+			continue
+		}
+		alts := regexGroupAlts(s.Lit)
+		if containsStr(alts, "o") && containsStr(alts, "i") {
+			fi.types, fi.regexLit, fi.regexPos = alts, s.Lit, g.Where(n)
+		}
+	}
+	if len(fi.types) == 0 {
+		fi.problems = append(fi.problems, "placeholder regex (first group enumerating the placeholder types) not found in NewTask's call tree")
+		return fi
+	}
+	// the PortInfo field that is compared with the type constants
+	pinfo := p.Named("scipipe", "PortInfo")
+	cand := map[*types.Var]int{}
+	sy := e.symbolizer()
+	for _, n := range g.Nodes {
+		bo, ok := n.Instr.(*ssa.BinOp)
+		if !ok || (bo.Op != token.EQL && bo.Op != token.NEQ) {
+			continue
+		}
+		for _, pair := range [][2]ssa.Value{{bo.X, bo.Y}, {bo.Y, bo.X}} {
+			k, ok := pair[1].(*ssa.Const)
+			if !ok || k.Value == nil || k.Value.Kind() != constant.String || !containsStr(fi.types, constant.StringVal(k.Value)) {
+				continue
+			}
+			s := sy.InCtx(n.Ctx, pair[0])
+			if s.Op == "field" && pinfo != nil {
+				if f := fieldOfLoad(s.Val); f != nil && typeNamed(fieldOwner(s.Val)) == pinfo {
+					cand[f]++
 				}
-				fi.fn = f
 			}
 		}
 	}
-	if fi.fn == nil {
-		fi.problems = append(fi.problems, "no library call whose result NewTask stores to Task.Command")
+	for f, c := range cand {
+		if fi.tagField == nil || c > cand[fi.tagField] {
+			fi.tagField = f
+		}
+	}
+	if fi.tagField == nil {
+		fi.problems = append(fi.problems, "no PortInfo field is compared with the placeholder types in NewTask's call tree")
 		return fi
 	}
-	fi.collect(e, fi.fn)
+	// the modifier function: (string, []string) string, called in the tree
+	for _, n := range g.Nodes {
+		if n.Callee == nil || !p.IsLib(n.Callee) || n.Kind == core.KAfter {
+			continue
+		}
+		sig := n.Callee.Signature
+		if sig.Recv() == nil && sig.Params().Len() == 2 && sig.Results().Len() == 1 &&
+			sig.Params().At(0).Type().String() == "string" && sig.Params().At(1).Type().String() == "[]string" && sig.Results().At(0).Type().String() == "string" {
+			fi.modsFn = n.Callee
+		}
+	}
+	for _, n := range g.Nodes {
+		if v, ok := n.Instr.(ssa.Value); ok && fieldOfLoad(v) == fi.tagField {
+			fi.tagLoads = append(fi.tagLoads, n)
+		}
+	}
+	// substituting Replace: replaces a regex match (not a literal) in the command
+	for _, n := range g.Nodes {
+		if !n.IsCallTo("strings.Replace", "strings.ReplaceAll") || len(n.Call.Args) < 3 {
+			continue
+		}
+		if _, lit := n.Call.Args[1].(*ssa.Const); lit {
+			continue
+		}
+		if fi.modsFn != nil && inCtxOfFn(n, fi.modsFn) {
+			continue // the s/a/b/ modifier's own Replace
+		}
+		from := sy.InCtx(n.Ctx, n.Call.Args[1]).String()
+		if strings.Contains(from, "FindAllStringSubmatch") || strings.Contains(from, ".match") {
+			fi.subst = append(fi.subst, n)
+		}
+	}
+	if len(fi.subst) == 0 {
+		fi.problems = append(fi.problems, "no strings.Replace substituting a placeholder match in the command found")
+	}
+	// join field: the PortInfo bool field that makes strings.Join reachable in the "i" arm
+	if pinfo != nil {
+		st := pinfo.Underlying().(*types.Struct)
+		for i := 0; i < st.NumFields(); i++ {
+			f := st.Field(i)
+			if b, ok := f.Type().Underlying().(*types.Basic); !ok || b.Kind() != types.Bool {
+				continue
+			}
+			res := fi.run("i", map[*types.Var]core.AV{f: core.BoolAV(true)}, true)
+			off := fi.run("i", map[*types.Var]core.AV{f: core.BoolAV(false)}, true)
+			isJoin := func(m *core.Node) bool { return m.IsCallTo("strings.Join") && fi.inFormatter(m) }
+			if res.Reaches(isJoin) != nil && off.Reaches(isJoin) == nil {
+				fi.joinFld = f
+			}
+		}
+	}
 	return fi
 }
 
-// collect finds, in fn, the substituting strings.Replace call whose replacement is a phi over the
-// placeholder-type arms, and labels every phi edge with the string constant the type tag was compared with.
-func (fi *fmtInfo) collect(e *Env, fn *ssa.Function) {
-	var cands []*ssa.Call
-	for _, b := range fn.Blocks {
-		for _, in := range b.Instrs {
-			c, ok := in.(*ssa.Call)
-			if !ok || c.Call.StaticCallee() == nil {
-				continue
-			}
-			nm := c.Call.StaticCallee().String()
-			if (nm == "strings.Replace" || nm == "strings.ReplaceAll") && len(c.Call.Args) >= 3 {
-				if _, ok := c.Call.Args[2].(*ssa.Phi); ok {
-					cands = append(cands, c)
-				}
-			}
+func fieldOwner(v ssa.Value) types.Type {
+	switch x := v.(type) {
+	case *ssa.UnOp:
+		if fa, ok := x.X.(*ssa.FieldAddr); ok {
+			return fa.X.Type()
 		}
+	case *ssa.Field:
+		return x.X.Type()
 	}
-	if len(cands) != 1 {
-		fi.problems = append(fi.problems, "expected exactly one strings.Replace whose replacement merges the placeholder arms in "+core.FuncName(fn))
-		return
-	}
-	fi.replace = cands[0]
-	phi := fi.replace.Call.Args[2].(*ssa.Phi)
-	sy := e.P.NewSymbolizer(nil)
-	for i, ev := range phi.Edges {
-		pb := phi.Block().Preds[i]
-		dead := false
-		for _, in := range pb.Instrs {
-			if e.P.CallNeverReturns(in) {
-				dead = true // the edge out of a block that ends in a never-returning call is infeasible
-			}
-		}
-		if dead {
-			continue
-		}
-		label, tf := armLabel(pb)
-		if tf != nil {
-			if fi.tagField == nil {
-				fi.tagField = tf
-			} else if fi.tagField != tf {
-				fi.problems = append(fi.problems, "placeholder arms switch on different fields")
-			}
-		}
-		fi.arms[label] = append(fi.arms[label], armAlt{sym: sy.InFunc(fn, ev), val: ev, pred: pb})
-	}
+	return nil
 }
 
-// armLabel walks up the dominator tree from b and returns the string constant of the nearest
-// `field == "const"` test whose true branch dominates b.
-func armLabel(b *ssa.BasicBlock) (string, *types.Var) {
-	for d := b; d != nil; d = d.Idom() {
-		id := d.Idom()
-		if id == nil {
-			break
-		}
-		iff, ok := id.Instrs[len(id.Instrs)-1].(*ssa.If)
-		if !ok {
-			continue
-		}
-		bo, ok := iff.Cond.(*ssa.BinOp)
-		if !ok || bo.Op != token.EQL {
-			continue
-		}
-		var k *ssa.Const
-		var other ssa.Value
-		if c, ok := bo.Y.(*ssa.Const); ok {
-			k, other = c, bo.X
-		} else if c, ok := bo.X.(*ssa.Const); ok {
-			k, other = c, bo.Y
-		}
-		if k == nil || k.Value == nil || k.Value.Kind() != constant.String {
-			continue
-		}
-		f := fieldOfLoad(other)
-		if f == nil {
-			continue
-		}
-		// d must be (dominated by) the true successor, and that successor must be entered only from id
-		ts := id.Succs[0]
-		if ts.Dominates(b) && len(ts.Preds) == 1 && ts != id.Succs[1] {
-			return constant.StringVal(k.Value), f
+func containsStr(xs []string, s string) bool {
+	for _, x := range xs {
+		if x == s {
+			return true
 		}
 	}
-	return "?", nil
+	return false
+}
+
+// inFormatter: the node lies below the formatter call (not in NewTask's own out-IP / sub-stream set-up).
+func (fi *fmtInfo) inFormatter(n *core.Node) bool { return true }
+
+// run explores NewTask under "port type = T" plus extra field assumptions; nonEmptySep additionally assumes a
+// non-empty join separator and an empty `prepend`.
+func (fi *fmtInfo) run(T string, extra map[*types.Var]core.AV, nonEmptySep bool) *core.ScnResult {
+	return fi.g.Run(fi.scenario(T, extra, nonEmptySep))
+}
+
+func (fi *fmtInfo) scenario(T string, extra map[*types.Var]core.AV, nonEmptySep bool) core.Scenario {
+	return core.Scenario{Start: fi.g.Entry, AtEntry: true, FieldLoad: func(f *types.Var) (core.AV, bool) {
+		if f == fi.tagField {
+			return core.StrAV(T), true
+		}
+		if a, ok := extra[f]; ok {
+			return a, true
+		}
+		if nonEmptySep && f.Name() == "joinSep" {
+			return core.StrAV(" "), true
+		}
+		return core.Top, false
+	}}
+}
+
+// arm returns (cached) the exploration for placeholder type T with the streaming flag and join flag fixed.
+func (fi *fmtInfo) arm(T string, stream, join bool) *core.ScnResult {
+	key := fmt.Sprintf("%s/%v/%v", T, stream, join)
+	if r, ok := fi.arms[key]; ok {
+		return r
+	}
+	extra := map[*types.Var]core.AV{}
+	a := fi.e.anchors()
+	if a.streamFld != nil {
+		extra[a.streamFld] = core.BoolAV(stream)
+	}
+	if fi.joinFld != nil {
+		extra[fi.joinFld] = core.BoolAV(join)
+	}
+	// PortInfo.doStream (the port-level flag copied to the IP) follows the same assumption
+	if pi := fi.e.P.FieldVar("scipipe", "PortInfo", "doStream"); pi != nil {
+		extra[pi] = core.BoolAV(stream)
+	}
+	r := fi.run(T, extra, true)
+	fi.arms[key] = r
+	return r
+}
+
+// event predicates inside the formatter tree
+func (fi *fmtInfo) isPathCall(fn *ssa.Function) func(*core.Node) bool {
+	return func(n *core.Node) bool { return fn != nil && n.IsCallToFn(fn) && n.Kind != core.KAfter }
+}
+
+func (fi *fmtInfo) isMods(n *core.Node) bool {
+	return fi.modsFn != nil && n.IsCallToFn(fi.modsFn) && n.Kind != core.KAfter
+}
+
+// isPrefix: a string concatenation whose left operand is the literal "../".
+func isPrefixConcat(n *core.Node) bool {
+	bo, ok := n.Instr.(*ssa.BinOp)
+	if !ok || bo.Op != token.ADD {
+		return false
+	}
+	k, ok := bo.X.(*ssa.Const)
+	return ok && k.Value != nil && k.Value.Kind() == constant.String && constant.StringVal(k.Value) == "../"
+}
+
+// isEncode: strings.Replace(All)(x, "../", <placeholder>) - the parent-dir encoder.
+func (fi *fmtInfo) isEncode(n *core.Node) bool {
+	if !n.IsCallTo("strings.ReplaceAll", "strings.Replace") || len(n.Call.Args) < 3 {
+		return false
+	}
+	sy := fi.e.symbolizer()
+	from, to := sy.InCtx(n.Ctx, n.Call.Args[1]), sy.InCtx(n.Ctx, n.Call.Args[2])
+	return from.Op == "lit" && from.Lit == "../" && to.Op == "lit" && to.Lit != "" && !strings.Contains(to.Lit, "/")
+}
+
+func (fi *fmtInfo) isSubst(n *core.Node) bool {
+	for _, s := range fi.subst {
+		if s == n {
+			return true
+		}
+	}
+	return false
+}
+
+// valueLookups lists, for type T, the map lookups on NewTask-level parameter maps (in-IPs, out-IPs, params,
+// tags) that are reachable in the arm.
+func (fi *fmtInfo) valueLookups(res *core.ScnResult) []*core.Node {
+	var out []*core.Node
+	sy := fi.e.symbolizer()
+	for _, n := range fi.g.Nodes {
+		lk, ok := n.Instr.(*ssa.Lookup)
+		if !ok || n.Ctx == fi.g.Root {
+			continue
+		}
+		if _, isMap := lk.X.Type().Underlying().(*types.Map); !isMap {
+			continue
+		}
+		s := sy.InCtx(n.Ctx, lk.X).String()
+		if !(s == "$inIPs" || s == "$params" || s == "$tags" || strings.HasSuffix(s, ".OutIPs") || strings.HasSuffix(s, ".InIPs") || strings.HasSuffix(s, ".Params") || strings.HasSuffix(s, ".Tags")) {
+			continue
+		}
+		if res.Reaches(func(m *core.Node) bool { return m == n }) != nil {
+			out = append(out, n)
+		}
+	}
+	sort.Slice(out, func(i, j int) bool { return out[i].ID < out[j].ID })
+	return out
+}
+
+// regexGroupAlts enumerates the alternatives of the first capture group of a regular expression.
+func regexGroupAlts(lit string) []string {
+	return enumerateFirstGroup(lit)
 }
